@@ -16,4 +16,5 @@ def main : IO Unit := Dos.lineLoop (fun line =>
   | some "adv" => Dos.DkgSim.runLine (w.take 5)
   | some "hist" => Dos.DkgHist.runLine (w.take 8)
   | some "libadv" => Dos.DkgLibSim.runLine (w.take 5)
+  | some "netadv" => Dos.DkgSim.runLineNet (w.take 7)
   | _ => "bad-op")
